@@ -220,7 +220,8 @@ def build_tree(out, vb, units=False):
         p.id = "s%d" % i
         j = i + len(out)
         p.fill = svg.Color(["red", "none", "#0000ff80", "lime", "#ff000000", "transparent"][j % 6])
-        p.stroke = svg.Color(["none", "blue", "#00800040", "black", "#00ff0000", "#12345601"][j % 6])
+        # (five strokes against six fills: every pairing of opaque / translucent / transparent / none paints comes up)
+        p.stroke = svg.Color(["none", "blue", "#00800040", "black", "#12345601"][(j + j // 6) % 5])
         p.stroke_width = [1.0, 2.5, 0.5, 3.0, 2.0, 4.0][j % 6]
         (grp if i % 2 else root).append(p)
     return root
